@@ -35,6 +35,7 @@ func TestVerifCalcParams(t *testing.T) {
 	if err != nil {
 		t.Fatal(err)
 	}
+	defer fix.cleanup()
 	se := fix.newSession(false)
 	out, err := verifkit.OpenOut()
 	if err != nil {
@@ -157,6 +158,7 @@ func TestVerifMultiStmts(t *testing.T) {
 	if err != nil {
 		t.Fatal(err)
 	}
+	defer fix.cleanup()
 	out, err := verifkit.OpenOut()
 	if err != nil {
 		t.Fatal(err)
